@@ -239,4 +239,26 @@ func VerifWriteResponse(status int, pre http.Header, body []byte, post http.Head
 	return verifDecodeFrames(vs.buf.Bytes())
 }
 
+// VerifWriteResponseHeader calls responseWriter.writeHeader(status) directly on a fresh writer whose
+// header map is `hdr` (no WriteHeader bookkeeping: no Date, no Content-Length check) and decodes the
+// HEADERS frame it wrote.
+func VerifWriteResponseHeader(status int, hdr http.Header) ([]qpack.HeaderField, error) {
+	vs := &verifStream{}
+	rw := newResponseWriter(newStream(vs, nil, nil, func(io.Reader, *headersFrame) error { return nil }, nil), nil, false, nil)
+	for k, v := range hdr {
+		rw.Header()[k] = v
+	}
+	if err := rw.writeHeader(status); err != nil {
+		return nil, err
+	}
+	frames, err := verifDecodeFrames(vs.buf.Bytes())
+	if err != nil {
+		return nil, err
+	}
+	if len(frames) != 1 || frames[0].Kind != "H" {
+		return nil, fmt.Errorf("verif: expected exactly one HEADERS frame, got %d frames", len(frames))
+	}
+	return frames[0].Fields, nil
+}
+
 func VerifDefaultUserAgent() string { return defaultUserAgent }
